@@ -83,6 +83,13 @@ def cases(tier):
     for op in ("lt", "ge"):
         out.append((f"string/{op}", {"type": "value", "key": "k", "op": op, "value": "b"}, ("string", 1),
                     (lambda V_, op=op: (z3.Int("r_c0") < 98) if op == "lt" else (z3.Int("r_c0") >= 98))))
+    # string literals that look like something else (capitalised booleans, nulls, the keywords of the op-less form, numbers, the
+    # empty string): with an op they are ordinary strings and must come back as exactly that string
+    for lit in ("True", "TRUE", "False", "FALSE", "None", "null", "present", "absent", "empty", "not-null", "0", "1", "yes", "on", "", "1.0", "[]"):
+        eqt = z3.And([z3.Int(f"r_c{i}") == ord(ch) for i, ch in enumerate(lit)]) if lit else z3.BoolVal(True)
+        for op in ("eq", "ne", "not-equal"):
+            out.append((f"string-lookalike/{op}", {"type": "value", "key": "k", "op": op, "value": lit}, ("string", len(lit)),
+                        (lambda V_, op=op, eqt=eqt: eqt if op == "eq" else z3.Not(eqt))))
     for op, neg in (("in", False), ("ni", True), ("not-in", True)):
         out.append((f"int/{op}", {"type": "value", "key": "k", "op": op, "value": [1, 2, 3]}, ("int",),
                     (lambda V_, neg=neg: z3.Not(z3.Or(X == 1, X == 2, X == 3)) if neg else z3.Or(X == 1, X == 2, X == 3))))
@@ -124,7 +131,23 @@ def cases(tier):
                 lambda V_: z3.And(c0 == 97, c1 == 98)))
     out.append(("key/tag-colon-ne", {"type": "value", "key": "tag:team:owner", "op": "ne", "value": "ab"}, ("tags", 2),
                 lambda V_: z3.Not(z3.And(c0 == 97, c1 == 98))))
+    # translation is a function of the clause: the same clauses again, each translated after a prelude of other clauses that share
+    # its key, value or op (other filter types give the key another context; other ops / values for the same key)
+    for cid, clause, shape, exp in [c for c in out if c[0] in ("int/eq", "string/ne", "key/dotted", "key/tag", "key/tag-colon", "int/in", "list/contains", "vt/size")][:10]:
+        out.append((cid + "/after-prelude", clause, shape, exp, prelude_for(clause)))
     return out
+
+
+def prelude_for(clause):
+    k, v = clause["key"], clause.get("value")
+    other = "zz" if isinstance(v, str) else 99
+    pre = [("ec2", {"type": "security-group", "key": k, "op": "eq", "value": "sg-1"}),
+           ("ec2", {"type": "subnet", "key": k, "op": "eq", "value": "subnet-1"}),
+           ("ec2", {"type": "value", "key": k, "op": "ne" if clause.get("op") != "ne" else "eq", "value": other}),
+           ("ec2", {"type": "value", "key": "other", "op": clause.get("op"), "value": v}),
+           ("ec2", {"type": "value", "key": k, "op": clause.get("op"), "value": v, "value_type": "swap"} if not clause.get("value_type") and clause.get("op") in ("in", "ni") else
+            {"type": "value", "key": k, "value": "present"})]
+    return pre
 
 
 WS = (9, 10, 11, 12, 13, 28, 29, 30, 31, 32, 0x85, 0xA0, 0x1680, 0x2000, 0x2001, 0x2002, 0x2003, 0x2004, 0x2005, 0x2006, 0x2007, 0x2008, 0x2009, 0x200A, 0x2028, 0x2029, 0x202F, 0x205F, 0x3000)
@@ -210,8 +233,13 @@ def rewriter():
     return _R["R"]
 
 
-def translate(clause):
+def translate(clause, prelude=()):
     with contextlib.redirect_stdout(io.StringIO()):
+        for res, c in prelude:
+            try:
+                rewriter().primitive(res, dict(c))
+            except Exception:  # noqa: BLE001 - a prelude clause the translator rejects is simply not part of the history
+                pass
         return rewriter().primitive("ec2", clause)
 
 
@@ -234,7 +262,7 @@ def attr_value(shape, vals):
     return shape, None, None
 
 
-def _op_harness(cid, clause, shape, expected):
+def _op_harness(cid, clause, shape, expected, prelude=()):
     celpy, ct, ev = common.mods()
     base = shape
     extra_pre = []
@@ -248,7 +276,7 @@ def _op_harness(cid, clause, shape, expected):
     if shape[0] == "digits":
         pre = pre + [z3.And(v >= 48, v <= 57) for v in vars.values()]
     try:
-        text = translate(clause)
+        text = translate(clause, prelude)
         terr = None
     except Exception as ex:  # noqa: BLE001
         text, terr = None, ex
@@ -284,7 +312,7 @@ def _op_harness(cid, clause, shape, expected):
         return [Ob(f"C19/op/{opname}/relation", bool_term(r) == exp, note=f"{clause} -> `{text}`", tags={"case": cid})]
 
     def witness(vals):
-        return {"check": "c19.op_case", "args": enc({"cid": cid, "clause": clause, "shape": list(shape), "vals": vals})}
+        return {"check": "c19.op_case", "args": enc({"cid": cid, "clause": clause, "shape": list(shape), "vals": vals, "prelude": [list(p) for p in prelude]})}
 
     return Harness(id=f"C19/{cid}:{clause.get('op')}:{clause.get('value')!r}", vars=vars, pre=pre, run=run, witness=witness, max_paths=200)
 
